@@ -14,6 +14,7 @@ import Relsad.Model.Relrad
 import Relsad.Lemmas.GraphL
 import Relsad.Props.C06
 import Relsad.Props.C14
+import Relsad.Lemmas.AcctL
 import Relsad.Lemmas.ControlOpenL
 
 namespace Relsad.C07
@@ -375,5 +376,36 @@ example :
   intro C s
   refine ⟨by decide +kernel, by decide +kernel, by decide +kernel, by decide +kernel, by decide +kernel, by decide +kernel,
     by decide +kernel, by decide +kernel, by decide +kernel, by decide +kernel, by decide +kernel⟩
+
+open Relsad Relsad.BusAcc Relsad.C01 Relsad.Acct in
+/-- **What one contingency leaves in the load point's records.**  A load point with constant demand `P` that is without
+supply for `k ≥ 1` consecutive increments of length `H` and then fed again has, once the first fed increment is logged:
+`k·H` more outage time, `k·P·H` more energy not supplied and exactly one more interruption; its bookkeeping is back in
+the state the next contingency starts from (empty stack, no running interruption), so the effects of non-overlapping
+contingencies add up.  With `k` the number of passes the classification gives (`sectioning_passes` for "sectioning time
+only", the passes until the repair otherwise) this is "durations times demand and customers" of C07, on the accounting
+model that C01 / C10 tie to `Bus`. -/
+theorem contingency_accounting (P H : ℚ) (hP : eqZero P = false) (hP0 : 0 < P) (hH : 0 < H) (k : ℕ) (hk : 0 < k)
+    (b : BusAcc) (h0 : b.pStack = 0) (hn : b.nConsec = 0) (hc : b.curr = 0) :
+    let b' := (List.replicate k (deadInc P H) ++ [liveInc P H]).foldl step b
+    b'.accOutage = b.accOutage + k * H ∧ b'.accP = b.accP + k * (P * H) ∧ b'.accInt = b.accInt + 1 ∧
+    b'.pStack = 0 ∧ b'.nConsec = 0 ∧ b'.curr = 0 ∧ b'.nCust = b.nCust := by
+  obtain ⟨r1, r2, r3, r4, r5, r6, r7⟩ := dead_run P H hP hP0 hH k b h0
+  obtain ⟨l1, l2, l3, l4, l5, l6, l7⟩ := step_live ((List.replicate k (deadInc P H)).foldl step b) P H r4
+  simp only [List.foldl_append, List.foldl_cons, List.foldl_nil]
+  refine ⟨l1.trans r1, l2.trans r2, ?_, l4, l5, l6, l7.trans r7⟩
+  rw [l3, r5, r6, r3, hn, hc, if_pos (by omega)]
+  have : ((0 + k : ℕ) : ℚ) ≠ 0 := by simp; omega
+  simp only [zero_add] at *
+  rw [div_self this]
+
+open Relsad Relsad.BusAcc Relsad.C01 Relsad.Acct in
+/-- Non-vacuity and additivity on numbers: demand 1/20 MW, half-hour steps; out for 3 steps, fed for one, out for 2
+steps, fed again: 5/2 h of outage, 1/8 MWh not supplied, two interruptions. -/
+example :
+    let is := List.replicate 3 (deadInc (1/20) (1/2)) ++ [liveInc (1/20) (1/2)] ++ List.replicate 2 (deadInc (1/20) (1/2)) ++ [liveInc (1/20) (1/2)]
+    (is.foldl step {}).accOutage = 5/2 ∧ (is.foldl step {}).accP = 1/8 ∧ (is.foldl step {}).accInt = 2 := by
+  decide +kernel
+
 
 end Relsad.C07
